@@ -310,6 +310,9 @@ class CEval(object):
                 return '%0*x' % (int(args[0]), int(args[1]))
             if name == 'str_lower':
                 return args[0].lower()
+            if name == 'pjoin':
+                import posixpath
+                return posixpath.join(*args)
             if name == 'floor':
                 import math
                 return math.floor(exact(args[0]))
